@@ -36,7 +36,11 @@ type c03Case struct {
 	Queue   int    `json:"queue"`
 	FlushMS int    `json:"flush_ms"`
 	// Family of faults; every position is enumerated for the workload.
-	Family string `json:"family"` // op-error | ext-close | srv-fatal | srv-garbage | srv-truncate | srv-close | read-timeout
+	Family string `json:"family"` // op-error | ext-close | srv-fatal | srv-garbage | srv-truncate | srv-close | read-timeout | write-stall
+	// write-stall: the server stops reading after request #pos, so that a later write of the client
+	// blocks (socket buffers full); then, by Partial: 0 = Close() from outside, 1 = the read timeout
+	// fires, -1 = the server closes its end. Only one goroutine writes in this family (all calls
+	// batched, or a single sender), so that nothing but the blocked write holds a lock.
 	// Partial selects how much of a failing write gets through: 0, 1, -1 (all but one byte)
 	Partial int `json:"partial"`
 	After   int `json:"after"` // calls queued after the failure
@@ -70,6 +74,8 @@ func c03Run(c c03Case) (out Outcome) {
 	switch c.Family {
 	case "srv-fatal", "srv-garbage", "srv-truncate", "srv-close", "read-timeout":
 		n = dry.requests
+	case "write-stall":
+		n = dry.requests - 1
 	}
 	positions := 0
 	for k := 1; k <= n; k++ {
@@ -97,6 +103,13 @@ var c03Positions int64
 
 func c03Once(c c03Case, pos int) (ret c03Outcome) {
 	res := inBubble(theT, func() { ret = c03InBubble(c, pos) })
+	if c.Family == "write-stall" && res.Frozen != "" && strings.Contains(res.Frozen, "tsuna/gohbase/region.") {
+		// in this family the harness guarantees that the only lock holder is the writer blocked in
+		// conn.Write, which returns as soon as the connection is closed: a goroutine of the region
+		// client parked on a mutex for 40 s of real time is waiting for that writer - a deadlock
+		return c03Outcome{sig: "client-stuck@behind-blocked-writer", msg: "the connection failed while a write was blocked (server not reading); " +
+			"a goroutine of the region client is parked on a lock that only the blocked writer can release, and the write is never interrupted:\n" + res.Frozen}
+	}
 	if o, stuck := stuckVerdict(res); stuck {
 		return c03Outcome{sig: o.Sig, msg: o.Msg}
 	}
@@ -111,11 +124,15 @@ func c03Once(c c03Case, pos int) (ret c03Outcome) {
 
 func c03InBubble(c c03Case, pos int) (ret c03Outcome) {
 	readTimeout := time.Hour
-	if c.Family == "read-timeout" {
+	if c.Family == "read-timeout" || c.Family == "write-stall" && c.Partial == 1 {
 		readTimeout = 50 * time.Millisecond
 	}
+	stall := c.Family == "write-stall" && pos > 0
 	closeSig := make(chan struct{}, 1)
 	opts := memconn.Options{}
+	if stall {
+		opts.Cap = 1
+	}
 	if pos > 0 {
 		switch c.Family {
 		case "op-error":
@@ -193,6 +210,10 @@ func c03InBubble(c c03Case, pos int) (ret c03Outcome) {
 	srvReqs := 0
 	outstandingAtFault := 0
 	srvDone := make(chan struct{})
+	stallOver := make(chan struct{})
+	var stallOnce sync.Once
+	endStall := func() { stallOnce.Do(func() { close(stallOver) }) }
+	defer endStall()
 	go func() {
 		defer close(srvDone)
 		conn := env.pair.Server
@@ -210,6 +231,15 @@ func c03InBubble(c c03Case, pos int) (ret c03Outcome) {
 			srvMu.Unlock()
 			if pos > 0 && n == pos {
 				switch c.Family {
+				case "write-stall":
+					// answer nothing more and stop reading; with Partial == -1 hang up a little later
+					if c.Partial == -1 {
+						time.Sleep(10 * time.Millisecond)
+						conn.Close()
+						return
+					}
+					<-stallOver
+					return
 				case "srv-fatal":
 					conn.Write(wire.BuildResponse(req.Header.GetCallId(), nil, nil, wire.Exception(
 						"org.apache.hadoop.hbase.regionserver.RegionServerAbortedException", "RegionServerAbortedException: going down")))
@@ -274,7 +304,26 @@ func c03InBubble(c c03Case, pos int) (ret c03Outcome) {
 		return call, marker, cancel
 	}
 	var cancels []context.CancelFunc
-	for si, calls := range c.Senders {
+	senders := c.Senders
+	if c.Family == "write-stall" {
+		// one writer only: everything goes through the batching goroutine, or there is one sender
+		senders = nil
+		for _, calls := range c.Senders {
+			var cs []c03Call
+			for _, sp := range calls {
+				if sp.Kind == "scan" {
+					sp.Kind = "get"
+				}
+				sp.Batched = c.Queue > 1
+				cs = append(cs, sp)
+			}
+			senders = append(senders, cs)
+			if c.Queue <= 1 {
+				break
+			}
+		}
+	}
+	for si, calls := range senders {
 		issue.Add(1)
 		asBatch := si < len(c.AsBatch) && c.AsBatch[si]
 		go func(calls []c03Call) {
@@ -306,6 +355,20 @@ func c03InBubble(c c03Case, pos int) (ret c03Outcome) {
 				}
 			}
 		}(calls)
+	}
+	if stall {
+		// senders may be blocked behind the stalled writer: do not wait for them yet
+		time.Sleep(time.Duration(c.FlushMS)*time.Millisecond + time.Millisecond)
+		synctest.Wait()
+		switch c.Partial {
+		case 0:
+			go env.rc.Close()
+		case 1:
+			time.Sleep(readTimeout + time.Millisecond)
+		default:
+			time.Sleep(11 * time.Millisecond)
+		}
+		synctest.Wait()
 	}
 	issue.Wait()
 	time.Sleep(time.Duration(c.FlushMS)*time.Millisecond + time.Millisecond)
@@ -380,6 +443,7 @@ func c03InBubble(c c03Case, pos int) (ret c03Outcome) {
 			cn()
 		}
 		env.pair.Server.Close()
+		endStall()
 		waiters.Wait()
 		<-srvDone
 		<-closerDone
@@ -500,7 +564,7 @@ func c03Gen(t *rapid.T) c03Case {
 	var c c03Case
 	c.Queue = rapid.SampledFrom([]int{1, 2, 5, 100}).Draw(t, "queue")
 	c.FlushMS = rapid.SampledFrom([]int{0, 1, 20}).Draw(t, "flush")
-	c.Family = rapid.SampledFrom([]string{"op-error", "op-error", "ext-close", "srv-fatal", "srv-garbage", "srv-truncate", "srv-close", "read-timeout"}).Draw(t, "family")
+	c.Family = rapid.SampledFrom([]string{"op-error", "op-error", "ext-close", "srv-fatal", "srv-garbage", "srv-truncate", "srv-close", "read-timeout", "write-stall"}).Draw(t, "family")
 	c.Partial = rapid.SampledFrom([]int{0, 1, -1}).Draw(t, "partial")
 	c.After = rapid.IntRange(0, 3).Draw(t, "after")
 	ns := rapid.IntRange(1, 4).Draw(t, "nsenders")
@@ -538,7 +602,8 @@ func TestC03_ConnectionFailure(t *testing.T) {
 			"operations K and requests R, then re-run twice for EVERY position of a drawn fault family: the k-th "+
 			"read/write/deadline/close operation fails (writes with 0, 1 or all-but-one bytes through), external Close when "+
 			"operation k is reached, or at the j-th request: server-fatal exception frame, undecodable header, "+
-			"truncated frame + close, close, or silence (read timeout); then 0..3 more calls are queued. Oracle at "+
+			"truncated frame + close, close, or silence (read timeout), or the server stops READING after request j so that a later write "+
+			"blocks, and then Close() / the read timeout / a hang-up of the server ends the connection; then 0..3 more calls are queued. Oracle at "+
 			"quiescence: every call got exactly one result (own response if answered, else region.ServerError; cancelled "+
 			"calls 0 or 1), never two; later calls are refused at once with ServerError; no reader/writer/queueing "+
 			"goroutine is left; the bubble never deadlocks. evaluations = workloads; label positions counts runs. "+
